@@ -498,7 +498,8 @@ def _containers(run, ix):
     f = ix.func("trimesh.path.path:Path.__hash__")
     txt = ast.unparse(f.node)
     ok_v = re.search(r"self\.vertices\.__hash__\(\)|hash\(self\.vertices\)", txt) is not None
-    ok_e = re.search(r"for (\w+) in self\.entities\b(?! *if)", txt) is not None and "._bytes()" in txt
+    from ..accum import contributions as _contrib
+    ok_e = any(c_.iter == "self.entities" and re.fullmatch(r"\[?_1\.\w+\(\)\]?", c_.elt) and not c_.filters for c_ in _contrib(f.node))
     run.instance("R4", f.where, f"Path hash covers vertices={ok_v} and every entity={ok_e}", ok_v and ok_e)
     if not (ok_v and ok_e):
         run.violation("R4", f.where, "Path.__hash__ does not cover the vertex array and the bytes of every entity",
@@ -514,7 +515,8 @@ def _containers(run, ix):
                       key=key_of("C02-R4", "Scene"))
     # Entity._bytes covers points and closed flag / class name
     for cls_name in ("Entity",):
-        f = ix.func("trimesh.path.entities:Entity._bytes")
+        from ..accum import entity_bytes_name
+        f = ix.func("trimesh.path.entities:Entity." + entity_bytes_name(ix))
         rets = [ast.unparse(r.value) for r in ast.walk(f.node) if isinstance(r, ast.Return) and r.value is not None]
         ok = bool(rets) and all("self.points" in r and "tobytes()" in r for r in rets)
         run.instance("R4", f.where, f"Entity bytes cover the point indices on every return: {ok}", ok)
